@@ -114,8 +114,12 @@ func backendScen(c *Ctx) {
 	nOps := 6 + r.Intn(14)
 	var ops []bop
 	faultful := c.Opt("faults", "1") == "1"
+	readsOnly := c.Opt("reads", "") == "1" // C02: mostly reads, many at offsets
 	for i := 0; i < nOps; i++ {
 		o := bop{kind: r.Weighted(6, 2, 2, 3, 1, 2), k: keys[r.Intn(len(keys))]}
+		if readsOnly && r.Chance(3, 4) {
+			o.kind = 0
+		}
 		o.known = r.Chance(2, 3)
 		switch o.kind {
 		case 0:
@@ -123,7 +127,7 @@ func backendScen(c *Ctx) {
 			if o.k.kind != cache.CAS {
 				o.via = 0
 				o.known = false
-			} else if o.via != 1 && r.Chance(1, 3) {
+			} else if o.via != 1 && (r.Chance(1, 3) || (readsOnly && r.Chance(1, 2))) {
 				// a read from an offset: also the first read of an entry only the backend holds
 				nn := int64(len(o.k.data))
 				o.off = []int64{1, nn / 2, nn - 1, 4096, 4097}[r.Intn(5)]
